@@ -513,6 +513,24 @@ class Graph:
         return [self.signature(i) for i in range(len(self.objs))]
 
 
+def depths(g, roots):
+    """depth of every snapshot object below the roots along own references (the rank function the
+    theorems' hypothesis `rankCheck` is evaluated with)"""
+    d = [0] * len(g.rows)
+    seen = set()
+    todo = [(g.idx(r), 0) for r in roots]
+    while todo:
+        i, k = todo.pop()
+        if i in seen:
+            continue
+        seen.add(i)
+        d[i] = k
+        for tag, j in g.rows[i][2]:
+            if tag == "own":
+                todo.append((j, k + 1))
+    return d
+
+
 def shape(result, graph):
     """Canonical shape of an object produced by a copy: discovery numbering of the objects that
     are not in `graph` (depth first, fields in order), references to snapshot objects by index."""
